@@ -237,9 +237,10 @@ Section LandmarkModel.
         LOk (fun j c => sumn L (fun k => B k j * U k c) / q c)
     end.
 
-  (* IsomapImplementation::embed: square, centerMatrix, *= -0.5 (G is N x N here) *)
+  (* IsomapImplementation::embed: square, (S + S^T).eval() / 2.0 (fix F23), centerMatrix, *= -0.5
+     (G is N x N here) *)
   Definition isomap_matrix (N : nat) (G : mat F) : mat F :=
-    fun i j => center_matrix N (fun a b => G a b * G a b) i j * lm_neg_half.
+    fun i j => center_matrix N (sym_avg (fun a b => G a b * G a b)) i j * lm_neg_half.
 
   (* ---------------- list versions (these are what is extracted and run) ----------------
      every stage is tabulated once, as the C++ materialises it *)
